@@ -5,7 +5,7 @@ EXTENDS MC_EvalBase
 \* ---- C03: totality and misuse
 Vals3 == { N(1), ND(FALSE, <<1,5>>, -1), <<"Pre", "-", N(1)>>, N(0), S(<<97,98>>), S(<<>>), KwL("true"), KwL("null"), Id("np"), Id("m"), Id("sl"), Id("ss"),
            Id("st"), Id("t"), Id("rec"), Id("u"), Id("nan"), ND(FALSE, <<1>>, 6), <<"Arr", <<>>>> }
-Vals3s == { N(1), <<"Pre", "-", N(1)>>, S(<<97,98>>), KwL("null"), Id("sl"), Id("ss"), Id("t"), N(5), ND(FALSE, <<1>>, 6) }
+Vals3s == { N(1), <<"Pre", "-", N(1)>>, S(<<97,98>>), S(<<40>>), KwL("null"), Id("sl"), Id("ss"), Id("t"), N(5), ND(FALSE, <<1>>, 6) }
 Funs3 == BuiltinNames \ {"now", "toDay"}
 AllBinOps == BinOps \cup {","}
 Vals3x == Vals3 \cup {Id("im"), Id("ps"), Id("tm")}
